@@ -32,6 +32,29 @@ subset: it is a panic here, so nothing is ever proved about it) -/
 def slice {α} (l : List α) (lo hi : Nat) : Option (List α) :=
   if lo ≤ hi ∧ hi ≤ l.length then some ((l.take hi).drop lo) else none
 
+/-- `make([]T, n, m)`: panics unless `n ≤ m`; the slice has `n` zero elements (its capacity is not part of a slice VALUE
+here: where the code looks at it, see `reslice`) -/
+def make {α} (n m : Nat) (zero : α) : Option (List α) := if n ≤ m then some (List.replicate n zero) else none
+
+/-- what `copy(dst, src)` leaves in `dst`: the first `min (len dst) (len src)` elements come from `src` (Go's copy is a
+memmove: `src` is read as it was before the call, also when the two overlap) -/
+def copyInto {α} (dst src : List α) : List α := src.take dst.length ++ dst.drop src.length
+
+/-- `copy(p[lo:hi], src)`: the new `p`; panics unless `lo ≤ hi ≤ len(p)` -/
+def copySlice {α} (p : List α) (lo hi : Nat) (src : List α) : Option (List α) :=
+  if lo ≤ hi ∧ hi ≤ p.length then some (p.take lo ++ copyInto ((p.take hi).drop lo) src ++ p.drop hi) else none
+
+/-- the hidden part of a slice: `tail` is what the backing array holds between `len(s)` and `cap(s)`. The value of a slice
+is the list of its `len` elements; where the code looks beyond (`cap(s)`, the re-slice `s = s[:n]` up to the capacity) the
+translated function takes the tail as an EXTRA PARAMETER, and the agreement theorems quantify over every tail: whatever
+the capacity and the stale contents are, the function does what the model says. `cap(s) = len(s) + len(tail)`. -/
+def capOf {α} (s tail : List α) : Int := (s.length + tail.length : Nat)
+
+/-- `s = s[:n]` (re-slice up to the capacity): panics when `n > cap(s)`; elements beyond the old length are the stale
+contents of the backing array -/
+def reslice {α} (s : List α) (n : Nat) (tail : List α) : Option (List α) :=
+  if n ≤ s.length + tail.length then some ((s ++ tail).take n) else none
+
 /-- integer division and remainder: panic on a zero divisor; Go truncates toward zero -/
 def divN (a b : Nat) : Option Nat := if b = 0 then none else some (a / b)
 def modN (a b : Nat) : Option Nat := if b = 0 then none else some (a % b)
@@ -48,8 +71,21 @@ def enumI {α} (l : List α) : List (Int × α) := (rangeI l.length).zip l
 def upN (a b : Nat) : List Nat := List.range' a (b - a)
 def upI (a b : Int) : List Int := (List.range (b - a).toNat).map (fun k => a + Int.ofNat k)
 
+/-- `for i := a; i < b; i += k` (`k ≥ 1`; the translator admits it only where the loop cannot wrap): a, a+k, … below b -/
+def stepN (a b k : Nat) : List Nat := (List.range ((b - a + k - 1) / k)).map (fun j => a + j * k)
+def stepI (a b : Int) (k : Nat) : List Int := (List.range (((b - a).toNat + k - 1) / k)).map (fun j => a + Int.ofNat (j * k))
+
 /-- `for i := a; i >= b; i--`: a, a-1, …, b -/
 def downN (a b : Nat) : List Nat := (List.range (a + 1 - b)).map (fun k => a - k)
 def downI (a b : Int) : List Int := (List.range (a + 1 - b).toNat).map (fun k => a - Int.ofNat k)
+
+/-- `binary.LittleEndian.AppendUintN(b, v)` appends `leN v`, `binary.BigEndian.AppendUintN(b, v)` appends `beN v`: the
+N/8 bytes of `v` (a `uintN`, below `2^N`), least / most significant first -/
+def le16 (v : Nat) : List Nat := [v % 256, v / 256 % 256]
+def be16 (v : Nat) : List Nat := [v / 256 % 256, v % 256]
+def le32 (v : Nat) : List Nat := [v % 256, v / 256 % 256, v / 65536 % 256, v / 16777216 % 256]
+def be32 (v : Nat) : List Nat := [v / 16777216 % 256, v / 65536 % 256, v / 256 % 256, v % 256]
+def le64 (v : Nat) : List Nat := le32 (v % 4294967296) ++ le32 (v / 4294967296 % 4294967296)
+def be64 (v : Nat) : List Nat := be32 (v / 4294967296 % 4294967296) ++ be32 (v % 4294967296)
 
 end Go
